@@ -14,6 +14,9 @@ HERE = os.path.dirname(os.path.abspath(__file__))
 ROOT = os.path.dirname(HERE)
 
 
+_WCACHE = {}
+
+
 def _build_freezer_driver(workdir, repo):
     d = os.path.join(workdir, 'freezer_driver')
     if os.path.exists(os.path.join(d, 'target', 'debug', 'verif-freezer-driver')):
@@ -80,6 +83,25 @@ def find_witness(unit_res, failed, workdir, repo):
                 'replay_args': ['replay', str(pick['n_items']), str(pick['item_len']), str(pick['max_file']), str(pick['index_len']),
                                 str(pick['head_file_id']), str(pick['head_len'])],
                 'meaning': 'directory produced by the real FreezerFiles::append for n_items items, then INDEX cut to index_len bytes and data file blk<head_file_id> cut to head_len bytes (or removed); the real FreezerFilesBuilder::build / retrieve / append are then run on it'}
+    # Verus unit with a paired Kani harness for the failed function: ask CBMC for a concrete input
+    wm = unit_res.get('witness_map') or {}
+    ent = wm.get(failed.get('function') or '')
+    if ent and (unit, failed.get('function')) in _WCACHE:
+        return _WCACHE[(unit, failed.get('function'))]
+    if ent:
+        _WCACHE[(unit, failed.get('function'))] = None
+        import run as runmod
+        import kani_units
+        ku = runmod.load_units()[ent['unit']]
+        ku = dict(ku)
+        ku['harness'] = [h for h in ku['harness'] if h['name'] == ent['harness']]
+        kr = kani_units.run_kani_unit(ku, workdir, 'thorough', repo)
+        for f in kr['failed']:
+            if f.get('witness'):
+                w = f['witness']
+                w['found_by'] = 'paired Kani harness %s (unit %s), failing check %s' % (ent['harness'], ent['unit'], f['name'])
+                _WCACHE[(unit, failed.get('function'))] = w
+                return w
     return None
 
 
@@ -109,6 +131,7 @@ def replay(pid, path):
             return 0
         if w['kind'] == 'kani-concrete':
             import kani_units
+            doc = dict(doc); doc['unit'] = w.get('unit', doc['unit'])
             return kani_units.replay_native(pid, doc, workdir, repo, path)
     finally:
         shutil.rmtree(workdir, ignore_errors=True)
